@@ -26,3 +26,31 @@ Proof. exact run_no_duplicate_tests. Qed.
 
 Print Assumptions C12_log.
 Print Assumptions C12_no_duplicates.
+
+(* ---- a following run() on a RE-USED Lithium object sharing the temp dir (Model/Session.v): the directory
+   is the previous directory plus `original` plus one copy per answered test of this run, named by prefix
+   numbers that continue where the previous run stopped - so nothing a previous run left is overwritten *)
+From Lithium Require Import Session SessionProofs SessionLogProofs.
+
+Theorem C12_session_log :
+  forall S (strat : strategy S) verdict fuel tc0 file0 prev,
+    content tc0 = file0 ->
+    let w := result_world (run_on strat verdict fuel tc0 (carry true prev file0)) in
+    w_temp w = rev ((Original, file0) :: expected_temp_p (chron w)) ++ w_temp prev /\
+    numbered_from2 (w_tests prev + 1) (w_tfc prev) (tests_of (chron w)) /\
+    w_tests w = w_tests prev + n_tests (chron w) /\
+    w_tfc w = w_tfc prev + n_tests (chron w)
+              - (if existsb (fun e => match e with ETest _ _ _ Raise => true | _ => false end) (chron w) then 1 else 0).
+Proof. exact session_temp_log. Qed.
+
+Theorem C12_session_no_overwrite :
+  forall S (strat : strategy S) verdict fuel tc0 file0 prev,
+    content tc0 = file0 ->
+    names_below (w_temp prev) (w_tfc prev) ->
+    let w := result_world (run_on strat verdict fuel tc0 (carry true prev file0)) in
+    (forall p tag b, In (Numbered p tag, b) (expected_temp_p (chron w)) -> w_tfc prev <= p) /\
+    names_below (w_temp w) (w_tfc w).
+Proof. exact session_no_overwrite. Qed.
+
+Print Assumptions C12_session_log.
+Print Assumptions C12_session_no_overwrite.
